@@ -1,14 +1,16 @@
 """C04 — a comptime block yields what the same code yields at run time.
 
 Metamorphic: every generated program holds 12 "blocks". A block is a deterministic body of a random result type (all integer
-widths, f32/f64, bool, char, str, arrays, nested structs, enums with payloads, optionals, error unions, `type`) that is evaluated
+widths, f32/f64, bool, char, str and `distinct str` (also with escapes, up to 300 bytes), arrays, nested structs, enums with payloads, optionals, error unions, `type`) that is evaluated
 twice in the same program: once inside `comptime { ... }` (as a global, typed global, global referenced by another global, `::` /
 `:=` / annotated local, inline argument, inside a function called twice, inside a run-time loop, inside a lambda, wrapped in a
 second comptime block, in an imported file, or derived from another comptime global) and once at run time (the same function
 called at run time, or the body duplicated textually). Both values are printed leaf by leaf through the same printer function and
 must be equal; the run-time rendering is additionally compared with the value python computed for the body. A fraction of the
 blocks calls libc `puts("CT-k.")` inside the comptime body: the marker must appear in the compiler's output and never in the
-program's output. Pointer / function results must be rejected without a crash; a sample of compilations runs under memcheck.
+program's output. Pointer / function results, and results that hold a pointer inside an aggregate (struct with a str / slice /
+pointer member, ?str, E!str, [n]str, enum with a str payload, slices, any, ?^T), must be rejected with the "cannot return pointers"
+diagnostic and without a crash; a sample of compilations runs under memcheck.
 """
 import json
 import os
@@ -29,13 +31,14 @@ RULE = ("block = (result type shape, placement of the comptime block, pairing mo
 ASSUME = ["the value of a body is computed in python from the README meaning of literals, + - * / % without overflow, value-preserving casts, control flow, "
           "calls; when the RUN-TIME copy disagrees with python the block is inconclusive (not a C04 matter), only comptime != run time is a violation",
           "padding bytes and tags' padding are not constrained: values are compared leaf by leaf, never as raw bytes; an uninitialised-bytes report of memcheck for "
-          "the write(2) of the object file is judged only for programs whose comptime results are all padding-free (scalars and arrays of scalars)",
+          "the write(2) of the object file is judged only for programs whose comptime results are all padding-free (scalars and arrays of scalars), otherwise counted",
           "side effects: `puts` resolves to the compiler process's libc inside a comptime block; judged: marker >= 1 time in the compiler's output and 0 times in "
           "the program's output (how often the compiler evaluates one block is only counted)",
-          "pointer-carrying results other than `str` (slices, `any`, structs holding pointers, ?^T) are not generated as positive cases: their run-time copy would "
-          "itself point into a dead stack frame; `str` results are generated from literals only (static at run time)",
+          "results holding a pointer inside an aggregate (and slices, `any`, ?^T) are negative cases only: capy rejects them like top-level pointers, a rejection "
+          "with the pointer diagnostic is the expected outcome, an acceptance is recorded but not judged, a crash is a violation; plain `str` / `distinct str` "
+          "results are positive and generated from literals only (static at run time)",
           "a program that dies while printing the comptime copy of block k is a violation of block k; the blocks after it are not judged in that program "
-          "(str-carrying blocks are therefore placed last)"]
+          "(str blocks are placed last)"]
 
 BLOCKS_PER_PROG = 12
 PLACEMENTS = [("glob", 14), ("glob_typed", 8), ("glob_ref", 6), ("loc_const", 12), ("loc_mut", 10), ("loc_typed", 8), ("inline", 8), ("in_fn", 7),
@@ -460,8 +463,13 @@ def judge_memcheck(files, padfree, p):
         return viol, inconc, cnt
     cnt["memcheck_uninitialised_reports"] = len(MEM_UNINIT.findall(p.err))
     if MEM_UNINIT_WRITE.search(p.err):
-        viol.append({"key": "memcheck", "sig": "memcheck|uninitialised bytes written to the object file|" + ("padding-free results" if padfree else "results with padding"),
-                     "what": "uninitialised bytes (of a captured comptime result) reach write(2) of the object file:\n" + p.err[:900], "witness": wit})
+        if padfree:
+            viol.append({"key": "memcheck", "sig": "memcheck|uninitialised bytes written to the object file|padding-free results",
+                         "what": "uninitialised bytes reach write(2) of the object file although every comptime result of the program is a scalar or an array of scalars "
+                                 "(no padding that could explain them):\n" + p.err[:900], "witness": wit})
+        else:
+            # still observed after the result buffer was zeroed: the struct is copied out of a JIT stack slot whose padding was never written
+            cnt["memcheck_uninitialised_write_with_padded_results"] = 1
     return viol, inconc, cnt
 
 
@@ -577,6 +585,9 @@ def run(tier, seed):
     if len(viol) > len(uniq):
         notes.append(f"{len(viol) - len(uniq)} further violations share a signature with a reported one: " +
                      ", ".join(f"{k} x{n}" for k, n in sorted(seen.items()) if n > 1)[:600])
+    if cnt.get("memcheck_uninitialised_write_with_padded_results"):
+        notes.append("memcheck: undefined padding bytes of struct results still reach write(2) of the object file (copied from a JIT stack slot into the zeroed "
+                     "result buffer); padding is not constrained by C04, only counted")
     rep = {"evaluations": evals, "distinct_nontrivial": len(distinct), "violations": uniq, "samples": samples, "counters": cnt, "notes": notes,
            "exhaustive": False, "dropped_violations": len(viol) - len(uniq)}
     return C.finish("C04", tier, seed, t0, "exploration", rep, ASSUME, RULE, min_evals=500 if tier == "quick" else 5000, inconclusive=inconc)
